@@ -36,9 +36,10 @@ def _const(v, like):
 
 
 class _Fold(ast.NodeTransformer):
-    def __init__(self, bindings, tables):
+    def __init__(self, bindings, tables, shadow=()):
         self.bindings = bindings          # expression text -> python constant
         self.tables = tables              # name / '.attr' -> ast.Dict | ast.Tuple ...
+        self.shadow = set(shadow)         # local names of the function (they hide module level names)
         self.changed = False
 
     # ---- leaves
@@ -54,7 +55,15 @@ class _Fold(ast.NodeTransformer):
         return None
 
     def visit_Name(self, node):
-        return self._bound(node) or node
+        b = self._bound(node)
+        if b is not None:
+            return b
+        # a module / class level literal tuple that is merely named
+        if isinstance(node.ctx, ast.Load) and node.id not in self.shadow and isinstance(self.tables.get(node.id), (ast.Tuple, ast.List)) and \
+                _lit(self.tables[node.id]) is not _MISSING:
+            self.changed = True
+            return _copy_tree(self.tables[node.id])
+        return node
 
     def visit_Attribute(self, node):
         b = self._bound(node)
@@ -168,6 +177,13 @@ class _Fold(ast.NodeTransformer):
         return node.body if t else node.orelse
 
     def visit_Call(self, node):
+        try:
+            t = ast.unparse(node)
+        except Exception:       # noqa
+            t = None
+        if t is not None and t in self.bindings:
+            self.changed = True
+            return _const(self.bindings[t], node)
         self.generic_visit(node)
         f = node.func
         if isinstance(f, ast.Attribute) and f.attr == 'get' and 1 <= len(node.args) <= 2 and not node.keywords:
@@ -276,6 +292,171 @@ def _literal_locals(fn):
     return vals
 
 
+class _Env(ast.NodeTransformer):
+    """reads of names / attribute chains whose current value is a known literal"""
+
+    def __init__(self, env):
+        self.env = env
+        self.hit = False
+
+    def _sub(self, node):
+        if isinstance(getattr(node, 'ctx', None), ast.Load):
+            try:
+                t = ast.unparse(node)
+            except Exception:       # noqa
+                return None
+            if t in self.env:
+                self.hit = True
+                return _copy_tree(self.env[t])
+        return None
+
+    def visit_Name(self, node):
+        return self._sub(node) or node
+
+    def visit_Attribute(self, node):
+        r = self._sub(node)
+        if r is not None:
+            return r
+        self.generic_visit(node)
+        return node
+
+    def visit_Lambda(self, node):
+        return node
+
+
+def _is_literal(e):
+    return _lit(e) is not _MISSING
+
+
+def _target_text(t):
+    if isinstance(t, (ast.Name, ast.Attribute)):
+        try:
+            return ast.unparse(t)
+        except Exception:       # noqa
+            return None
+    return None
+
+
+def _kill(env, text):
+    for k in list(env):
+        if k == text or k.startswith(text + '.') or text.startswith(k + '.'):
+            del env[k]
+
+
+def _stored_texts(stmts):
+    out = set()
+    for s_ in stmts:
+        for n in ast.walk(s_):
+            if isinstance(n, (ast.Name, ast.Attribute)) and isinstance(getattr(n, 'ctx', None), (ast.Store, ast.Del)):
+                t = _target_text(n)
+                if t:
+                    out.add(t)
+    return out
+
+
+def propagate(body, env, fold):
+    """flow-sensitive propagation of literals through a statement list (in place): names and attribute chains that were just assigned a
+    literal are read as that literal until they are assigned something else; `fold(expr) -> expr` folds constants.  Branches are
+    processed with copies of the environment and merged (only what both agree on survives); loop bodies start from what the loop does
+    not assign.  Calls are assumed not to change the tracked attributes (the analysis-wide assumption).  -> True if anything changed"""
+    changed = False
+
+    def ev(e):
+        nonlocal changed
+        if e is None:
+            return e
+        t = _Env(env)
+        e2 = t.visit(e)
+        if t.hit:
+            changed = True
+        return fold(e2)
+    for st in body:
+        if isinstance(st, ast.Assign):
+            st.value = ev(st.value)
+            for tg in st.targets:
+                txt = _target_text(tg)
+                if txt is not None:
+                    _kill(env, txt)
+                    if len(st.targets) == 1 and _is_literal(st.value):
+                        env[txt] = st.value
+                else:
+                    for x in ast.walk(tg):
+                        tx = _target_text(x)
+                        if tx:
+                            _kill(env, tx)
+        elif isinstance(st, (ast.AugAssign, ast.AnnAssign)):
+            if st.value is not None:
+                st.value = ev(st.value)
+            txt = _target_text(st.target)
+            if txt:
+                _kill(env, txt)
+        elif isinstance(st, (ast.Expr, ast.Return)):
+            if st.value is not None:
+                st.value = ev(st.value)
+        elif isinstance(st, ast.If):
+            st.test = ev(st.test)
+            e1, e2 = dict(env), dict(env)
+            c1 = propagate(st.body, e1, fold)
+            c2 = propagate(st.orelse, e2, fold)
+            changed = changed or c1 or c2
+            t = _truth(st.test)
+            ends1 = bool(st.body) and isinstance(st.body[-1], (ast.Return, ast.Raise, ast.Continue, ast.Break))
+            ends2 = bool(st.orelse) and isinstance(st.orelse[-1], (ast.Return, ast.Raise, ast.Continue, ast.Break))
+            if t is True or ends2:
+                new = e1
+            elif t is False or ends1:
+                new = e2
+            else:
+                new = {k: v for k, v in e1.items() if k in e2 and ast.dump(e2[k]) == ast.dump(v)}
+            if ends1 and ends2:
+                new = {}
+            env.clear()
+            env.update(new)
+        elif isinstance(st, (ast.For, ast.While, ast.AsyncFor)):
+            for t in _stored_texts([st]):
+                _kill(env, t)
+            if isinstance(st, ast.While):
+                pass            # the test is re-evaluated with values of later iterations: left as it is
+            else:
+                st.iter = ev(st.iter)
+            inner = dict(env)
+            changed = propagate(st.body, inner, fold) or changed
+            propagate(st.orelse, dict(env), fold)
+        elif isinstance(st, (ast.With, ast.AsyncWith)):
+            for it in st.items:
+                it.context_expr = ev(it.context_expr)
+                if it.optional_vars is not None:
+                    for x in ast.walk(it.optional_vars):
+                        tx = _target_text(x)
+                        if tx:
+                            _kill(env, tx)
+            changed = propagate(st.body, env, fold) or changed
+        elif isinstance(st, ast.Try):
+            for t in _stored_texts(st.body):
+                pass
+            before = dict(env)
+            changed = propagate(st.body, env, fold) or changed
+            changed = propagate(st.orelse, env, fold) or changed
+            for h in st.handlers:
+                he = {k: v for k, v in before.items() if k not in _stored_texts(st.body)}
+                changed = propagate(h.body, he, fold) or changed
+            if st.handlers:
+                keep = _stored_texts(st.body) | _stored_texts([x for h in st.handlers for x in h.body])
+                for t in keep:
+                    _kill(env, t)
+            changed = propagate(st.finalbody, env, fold) or changed
+        elif isinstance(st, (ast.Raise, ast.Assert)):
+            pass
+        elif isinstance(st, (ast.FunctionDef, ast.AsyncFunctionDef, ast.ClassDef)):
+            _kill(env, st.name)
+        elif isinstance(st, ast.Delete):
+            for tg in st.targets:
+                tx = _target_text(tg)
+                if tx:
+                    _kill(env, tx)
+    return changed
+
+
 def specialise(fn_node, bindings, tables=None, rounds=6):
     """-> specialised copy of the FunctionDef (parent links: none)"""
     fn = _copy_tree(fn_node)
@@ -291,8 +472,14 @@ def specialise(fn_node, bindings, tables=None, rounds=6):
         for n in ast.walk(fn):
             if isinstance(n, (ast.If, ast.While, ast.Assert)) and isinstance(n.test, ast.BoolOp):
                 n.test._test_pos = True
-        f = _Fold(bindings, tables)
+        shadow = {n.id for n in ast.walk(fn) if isinstance(n, ast.Name) and isinstance(n.ctx, (ast.Store, ast.Del))} | \
+            {a.arg for a in ast.walk(fn.args) if isinstance(a, ast.arg)}
+        f = _Fold(bindings, tables, shadow)
         fn = f.visit(fn)
+        env = {}
+        prop = propagate(fn.body, env, lambda e: _Fold(bindings, tables, shadow).visit(e))
+        fn._final_env = env
+        f.changed = f.changed or prop
         fn.body, pruned = _prune(fn.body)
         if not fn.body:
             fn.body = [ast.Pass()]
